@@ -191,6 +191,7 @@ func WorkerMain(chk Check, env Env, args []string) {
 		}
 	}
 	debug.SetGCPercent(100)
+	debug.SetMaxStack(64 << 20) // runaway recursion in the library ends in a fatal error quickly instead of after a gigabyte
 	guards(c, out, stall)
 
 	phases := chk.Phases(env)
